@@ -1,6 +1,7 @@
 // Package realstore drives the REAL storage Go code of /repo (storage/driver,
 // storage/system, storage/ledger) over pgshim: a scripted _system.ledgers table
-// answers the three statements the system store needs, everything else is
+// executes the statements of the system store as written (sysdb.go: WHERE clauses are
+// evaluated on the scripted rows, deleted_at included), everything else is
 // recorded (and optionally answered by responders).
 package realstore
 
@@ -32,8 +33,10 @@ type SysDB struct {
 	mu      sync.Mutex
 	Ledgers []*ledger.Ledger
 	nextID  int
-	Shim    *pgshim.Shim
-	DB      *bun.DB
+	// literal text of deleted_at as written by the UPDATE (compared as written by later statements)
+	deletedLit map[string]string
+	Shim       *pgshim.Shim
+	DB         *bun.DB
 	// Responder, when set, may answer any other statement (nil result = not handled).
 	Responder func(ctx context.Context, c *pgshim.Conn, kind, sql string) (*pgshim.Rows, bool, error)
 	Unknown   []string
@@ -41,8 +44,7 @@ type SysDB struct {
 
 var (
 	reInsertLedger = regexp.MustCompile(`(?is)^INSERT INTO "_system"\."ledgers" \(([^)]*)\) VALUES \((.*)\) RETURNING`)
-	reCount        = regexp.MustCompile(`(?is)^SELECT count\(\*\) FROM "_system"\."ledgers" AS "ledgers" WHERE \(bucket = '([^']*)'\)$`)
-	reGet          = regexp.MustCompile(`(?is)^SELECT .* FROM "_system"\."ledgers" AS "ledgers" WHERE \(name = '([^']*)'\) AND \(deleted_at IS NULL\)$`)
+	reSysStmt      = regexp.MustCompile(`(?is)^(SELECT|UPDATE|DELETE)\b.*"_system"\."ledgers"`)
 )
 
 func NewSysDB() *SysDB {
@@ -133,29 +135,15 @@ func (s *SysDB) handle(ctx context.Context, c *pgshim.Conn, kind, q string) (*pg
 		s.mu.Unlock()
 		return &pgshim.Rows{Cols: []string{"id", "added_at"}, Data: [][]driver.Value{{int64(l.ID), time.Date(2030, 1, 1, 0, 0, 0, 0, time.UTC)}}}, nil
 	}
-	if m := reCount.FindStringSubmatch(t); m != nil {
-		s.mu.Lock()
-		n := 0
-		for _, l := range s.Ledgers {
-			if l.Bucket == m[1] {
-				n++
+	if m := reSysStmt.FindStringSubmatch(t); m != nil {
+		if r, handled, err := s.sysStatement(t); handled || err != nil {
+			if err != nil {
+				s.mu.Lock()
+				s.Unknown = append(s.Unknown, t)
+				s.mu.Unlock()
 			}
+			return r, err
 		}
-		s.mu.Unlock()
-		return &pgshim.Rows{Cols: []string{"count"}, Data: [][]driver.Value{{int64(n)}}}, nil
-	}
-	if m := reGet.FindStringSubmatch(t); m != nil {
-		s.mu.Lock()
-		defer s.mu.Unlock()
-		for _, l := range s.Ledgers {
-			if l.Name == m[1] {
-				f, _ := json.Marshal(l.Features)
-				md, _ := json.Marshal(l.Metadata)
-				return &pgshim.Rows{Cols: []string{"bucket", "metadata", "features", "id", "name", "added_at", "state", "deleted_at"},
-					Data: [][]driver.Value{{l.Bucket, md, f, int64(l.ID), l.Name, time.Date(2030, 1, 1, 0, 0, 0, 0, time.UTC), l.State, nil}}}, nil
-			}
-		}
-		return &pgshim.Rows{Cols: []string{"bucket", "metadata", "features", "id", "name", "added_at", "state", "deleted_at"}}, nil
 	}
 	if s.Responder != nil {
 		if r, ok, err := s.Responder(ctx, c, kind, t); ok || err != nil {
